@@ -294,6 +294,14 @@ Proof.
 Qed.
 Print Assumptions C20_field_operators.
 
+(* the components of a field travel positionally: JaxDiscreteField( *c.astuple ) in NonlinearForm._assemble.  The order of
+   DiscreteField.astuple (value, then _extra_attrs), of DiscreteField.__new__, of JaxDiscreteField.__init__ and of
+   JaxDiscreteField.astuple (regenerated from the two class definitions) are one and the same list of names *)
+Theorem C20_field_component_order :
+  df_astuple_order = jdf_init_order /\ jdf_astuple_order = jdf_init_order /\ df_new_order = df_astuple_order.
+Proof. exact field_orders_agree. Qed.
+Print Assumptions C20_field_component_order.
+
 (* ---- the JAX 3x3 determinant (own file: the only place defect F5 shows) *)
 (* marker: a failure of the next Require (Dyn.C20_JaxDet does not compile) is attributed to this item *)
 Example C20_requires_Dyn_C20_JaxDet : True.
